@@ -4,6 +4,7 @@ package main
 import (
 	"fmt"
 	"math"
+	"math/big"
 	"reflect"
 	"sort"
 	"unsafe"
@@ -307,7 +308,7 @@ func main() {
 
 	// Orientation == sign of the shoelace area of the implicitly closed ring; Reverse negates it
 	on := ev.Pick(r, 4, 5)
-	r.Explore("orientation", fmt.Sprintf("every vertex list of 3..%d points on the 3x3 grid, unclosed and closed: Orientation is the sign of the exact shoelace area, reversing negates it, reversing twice is the identity", on), mc.Opts{MaxDev: -1, Split: 2}, func(c *mc.Ctx) {
+	r.Explore("orientation", fmt.Sprintf("every vertex list of 3..%d points on the 3x3 grid, unclosed and closed, also shrunk to a 5e-10th of its distance from the origin at two anchors: Orientation is the sign of the exact shoelace area, reversing negates it, reversing twice is the identity", on), mc.Opts{MaxDev: -1, Split: 2}, func(c *mc.Ctx) {
 		n := 3 + c.Choose(on-2)
 		ring := make(orb.Ring, n)
 		var a2 int64
@@ -339,6 +340,29 @@ func main() {
 			w.Reverse()
 			if !w.Equal(v) {
 				c.Failf("reverse", "reversing %v twice gives %v", v, w)
+			}
+		}
+		// the same ring very small and far from the origin (a parcel given in degrees, a millimetre shape in mercator
+		// metres): the sign of its area, computed exactly from the coordinates as they are stored, still decides
+		for _, anchor := range []orb.Point{{-122.4194155, 37.7749295}, {1.3e7 + 0.5, 4.5e6 + 0.25}} {
+			tiny := make(orb.Ring, n)
+			for i, p := range ring {
+				tiny[i] = orb.Point{anchor[0] + p[0]*math.Ldexp(1, -24)*math.Max(1, math.Abs(anchor[0])/128), anchor[1] + p[1]*math.Ldexp(1, -24)*math.Max(1, math.Abs(anchor[0])/128)}
+			}
+			sum := new(big.Rat)
+			for i := range tiny {
+				p, q := tiny[i], tiny[(i+1)%n]
+				px, py, qx, qy := new(big.Rat).SetFloat64(p[0]), new(big.Rat).SetFloat64(p[1]), new(big.Rat).SetFloat64(q[0]), new(big.Rat).SetFloat64(q[1])
+				sum.Add(sum, new(big.Rat).Sub(new(big.Rat).Mul(px, qy), new(big.Rat).Mul(qx, py)))
+			}
+			wantT := orb.Orientation(sum.Sign())
+			if got := tiny.Orientation(); got != wantT {
+				c.Failf("orientation", "Orientation(%v) = %d, the exact shoelace area of these coordinates has sign %d", tiny, got, wantT)
+			}
+			rv := tiny.Clone()
+			rv.Reverse()
+			if got := rv.Orientation(); got != -wantT {
+				c.Failf("orientation", "Orientation after Reverse of %v = %d, want %d", tiny, got, -wantT)
 			}
 		}
 		if a2 != 0 {
@@ -473,7 +497,9 @@ func main() {
 			func(ps []orb.Point) orb.Geometry { return orb.Ring(ps) },
 			func(ps []orb.Point) orb.Geometry { return orb.Polygon{orb.Ring(ps), {{0, 0}, {1, 0}, {1, 1}, {0, 0}}} },
 			func(ps []orb.Point) orb.Geometry { return orb.MultiLineString{{{5, 5}}, orb.LineString(ps)} },
-			func(ps []orb.Point) orb.Geometry { return orb.Collection{orb.MultiPolygon{{orb.Ring(ps)}}, orb.Point{1, 1}} },
+			func(ps []orb.Point) orb.Geometry {
+				return orb.Collection{orb.MultiPolygon{{orb.Ring(ps)}}, orb.Point{1, 1}}
+			},
 		}
 		for fi, f := range forms {
 			mk := func() orb.Geometry { return f(append([]orb.Point(nil), base...)) }
